@@ -40,6 +40,17 @@ def generate(repo):
     sq = re.findall(r"tree->search\(obj_X\[n\],[^;]*;\s*for\s*\([^{};]*;[^{};]*;[^{};]*\)\s*distances\[m\]\s*\*=\s*distances\[m\]\s*;", ts_nc, flags=re.S)
     # `X.array() /= X.maxCoeff();` guarded by `if (X.maxCoeff() > 0)` (or not)
     guard = re.findall(r"if\s*\(\s*X\.maxCoeff\(\)\s*>\s*0(?:\.0?)?\s*\)\s*X\.array\(\)\s*/=\s*X\.maxCoeff\(\)\s*;", ts_nc)
+    # the Gaussian rows are evaluated on distances relative to the nearest one (or on the raw distances)
+    sh_dense = len(re.findall(r"exp\(-beta \* \(DD\[n \* N \+ m\] - min_DD\)\)", ts_nc))
+    sh_knn = len(re.findall(r"exp\(-beta \* \(distances\[m \+ 1\] - distances\[1\]\)\)", ts_nc))
+    raw_dense = len(re.findall(r"P\[n \* N \+ m\] = exp\(-beta \* DD\[n \* N \+ m\]\)", ts_nc))
+    raw_knn = len(re.findall(r"exp\(-beta \* distances\[m \+ 1\]\)", ts_nc))
+    if (sh_dense, sh_knn, raw_dense, raw_knn) == (1, 1, 0, 0):
+        shift = True
+    elif (sh_dense, sh_knn, raw_dense, raw_knn) == (0, 0, 1, 1):
+        shift = False
+    else:
+        raise ValueError("cannot classify the kernel rows (shifted/raw distances): %r" % ((sh_dense, sh_knn, raw_dense, raw_knn),))
     if not re.search(r"X\.array\(\)\s*/=\s*X\.maxCoeff\(\)\s*;", ts_nc):
         raise ValueError("cannot find the max-normalisation statement")
     op, factor = one(r"DD_map(?:\.noalias\(\))?\s*(\+=|-=|=)\s*(-?[\d.]+)\s*\*\s*X_map\.transpose\(\)\s*\*\s*X_map\s*;", ts_nc,
@@ -83,6 +94,8 @@ def generate(repo):
         "def squareAfterSearch : Bool := %s" % ("true" if sq else "false"),
         "/-- `X /= X.maxCoeff()` is guarded by `if (X.maxCoeff() > 0)` -/",
         "def maxGuard : Bool := %s" % ("true" if guard else "false"),
+        "/-- the Gaussian rows use `d_m - d_nearest` (dense: `min_DD` over the other samples; K-NN: `distances[1]`) -/",
+        "def shiftByNearest : Bool := %s" % ("true" if shift else "false"),
         "",
         "end TapkeeVerif.Gen.TsneOps",
         "",
